@@ -343,6 +343,128 @@ theorem destroyContainer_spec (s : Store) (h : CH) (hg : Good s.db) (hv : h.vali
   rw [hl]
   rfl
 
+theorem nestRO_snd {α} (s : Store) (body : Db → Except Code α) : (s.nestRO body).2 = body s.db := by
+  have hb : s.beginNest.1.db = s.db := by unfold Store.beginNest; split <;> rfl
+  unfold Store.nestRO
+  simp only [hb]
+
+theorem nestRO_db {α} (s : Store) (body : Db → Except Code α) : (s.nestRO body).1.db = s.db := (nestRO_same s body).1
+
+/-- cif_loop_get_names through a valid handle -/
+theorem getNames_spec (s : Store) (l : LH) (hg : Good s.db) (hv : l.validB s.db = true) :
+    absS (getNames s l).1.db = absS s.db ∧ (getNames s l).2 = specGetNames (absS s.db) l := by
+  obtain ⟨x, hx, k1, k2, _⟩ := LH.valid_of_validB hv
+  have hfind : (absS s.db).findLoop l.cid l.loopNum = some (absALoop s.db x) := by rw [← k1, ← k2]; exact findLoop_valid s.db hg.inv x hx
+  refine ⟨by unfold getNames; rw [nestRO_db], ?_⟩
+  unfold getNames specGetNames
+  rw [nestRO_snd, hfind]
+  show _ = (match (s.db.loopItems x.cid x.loopNum).map (fun i => (i.name, i.nameOrig)) with | [] => _ | is => _)
+  rw [k1, k2]
+  cases s.db.loopItems l.cid l.loopNum <;> rfl
+
+theorem absS_filter_loops (d : Db) (p : LoopRow → Bool) (q : ALoop → Bool) (h : ∀ x ∈ d.loops, q (absALoop d x) = p x) :
+    (absS d).loops.filter q = (d.loops.filter p).map (absALoop d) := by
+  show (d.loops.map (absALoop d)).filter q = _
+  rw [List.filter_map]
+  congr 1
+  apply List.filter_congr
+  intro x hx
+  exact h x hx
+
+/-- cif_container_get_category_loop -/
+theorem getCategoryLoop_spec (s : Store) (h : CH) (cat : Option Str) :
+    (getCategoryLoop s h cat).2 = specGetCategoryLoop (absS s.db) h cat := by
+  unfold getCategoryLoop specGetCategoryLoop
+  cases cat with
+  | none => rfl
+  | some c =>
+    simp only []
+    rw [absS_filter_loops s.db (fun l => l.cid == h.id && l.category == some c) _ (fun _ _ => rfl)]
+    cases hf : s.db.loops.filter (fun l => l.cid == h.id && l.category == some c) with
+    | nil => rfl
+    | cons a as =>
+      cases as with
+      | nil => rfl
+      | cons b bs => rfl
+
+/-- cif_container_get_item_loop -/
+theorem getItemLoop_spec (s : Store) (h : CH) (n : Option Name) : (getItemLoop s h n).2 = specGetItemLoop (absS s.db) h n := by
+  unfold getItemLoop specGetItemLoop
+  cases n with
+  | none => rfl
+  | some nm =>
+    simp only []
+    cases hv : nm.valid with
+    | false => rfl
+    | true =>
+      simp only [Bool.not_true, Bool.false_eq_true, if_false]
+      unfold getItemLoopInternal itemLoopRows
+      rw [absS_filter_loops s.db (fun l => l.cid == h.id && s.db.items.any (fun i => i.cid == h.id && i.name == nm.key && i.loopNum == l.loopNum)) _
+        (by
+          intro x _
+          rw [hasItem_absALoop]
+          show (x.cid == h.id && (s.db.loopItems x.cid x.loopNum).any (fun i => i.name == nm.key)) = _
+          cases hc : (x.cid == h.id) with
+          | false => rfl
+          | true =>
+            have hxc : x.cid = h.id := by simpa using hc
+            simp only [Bool.true_and, Db.loopItems, List.any_filter, hxc]
+            congr 1
+            funext i
+            cases (i.cid == h.id) <;> cases (i.name == nm.key) <;> cases (i.loopNum == x.loopNum) <;> rfl)]
+      cases hf : s.db.loops.filter (fun l => l.cid == h.id && s.db.items.any (fun i => i.cid == h.id && i.name == nm.key && i.loopNum == l.loopNum)) with
+      | nil => rfl
+      | cons a as =>
+        cases as with
+        | nil => rfl
+        | cons b bs => rfl
+
+/-- cif_container_prune commutes with `absS` -/
+theorem prune_spec (s : Store) (h : CH) (hg : Good s.db) :
+    absS (prune s h).1.db = (specPrune (absS s.db) h).1 ∧ (prune s h).2 = (specPrune (absS s.db) h).2 := by
+  refine ⟨?_, rfl⟩
+  let p : LoopRow → Bool := fun l => l.cid == h.id && !(s.db.items.any (fun i => i.cid == h.id && i.loopNum == l.loopNum
+      && s.db.values.any (fun v => v.cid == h.id && v.name == i.name)))
+  have hkey : ∀ a b : LoopRow, a.cid = b.cid → a.loopNum = b.loopNum → p a = p b := fun a b hc hl => by simp only [p, hc, hl]
+  have hr := deleteLoops_refines s.db p hg.inv hkey
+  have hsel : ∀ l : LoopRow, p l = (l.cid == h.id && (absLoop s.db l).packets.isEmpty) := by
+    intro l
+    cases hc : (l.cid == h.id) with
+    | false => simp [p, hc]
+    | true =>
+      have hl : l.cid = h.id := by simpa using hc
+      have := prune_selects s.db h.id l hl
+      cases hp : p l with
+      | true =>
+        have h1 : (absLoop s.db l).packets = [] := this.mp (show p l = true from hp)
+        simp [h1]
+      | false =>
+        cases he : (absLoop s.db l).packets with
+        | nil =>
+          have h2 : p l = true := this.mpr he
+          rw [hp] at h2; cases h2
+        | cons a as => simp
+  unfold prune specPrune
+  show ({ containers := s.db.containers, blocks := s.db.blocks, frames := s.db.frames, nextId := s.db.nextId,
+          loops := (s.db.deleteLoops p).loops.map (absALoop (s.db.deleteLoops p)) } : AState) = _
+  have hl : (s.db.deleteLoops p).loops.map (absALoop (s.db.deleteLoops p)) =
+      (s.db.loops.map (absALoop s.db)).filter (fun y => !(y.cid == h.id && y.packets.isEmpty)) := by
+    rw [hr.1, List.filter_map]
+    have : ((fun y : ALoop => !(y.cid == h.id && y.packets.isEmpty)) ∘ absALoop s.db) = (fun y : LoopRow => !p y) := by
+      funext y; simp only [Function.comp, hsel y]; rfl
+    rw [this]
+    apply List.map_congr_left
+    intro y hy
+    obtain ⟨hym, hyk⟩ := List.mem_filter.mp hy
+    have hyk' : p y = false := by
+      cases hb : p y with
+      | false => rfl
+      | true => rw [hb] at hyk; cases hyk
+    unfold absALoop
+    rw [deleteLoops_loopItems s.db p hkey y hyk', hr.2.1 y hym hyk']
+  rw [hl]
+  rfl
+
 -- ---- worlds ------------------------------------------------------------------------------------------------------------------------------
 
 open World in
@@ -550,6 +672,68 @@ theorem specStep_refines (w : World) (op : Op) (h : WOk w) (hin : inContract w o
         show ({ cifs := _, chs := _, lhs := _, its := _ } : AWorld) = { cifs := _, chs := _, lhs := _, its := _ }
         congr 1
         exact (absW_setCif w e.cif _).symm
+  | names l =>
+    simp only [specStep, step, liveL_absW]
+    cases hl : w.liveL l with
+    | none => rfl
+    | some pr =>
+      obtain ⟨e, s⟩ := pr
+      have hv : e.h.validB s.db = true := by
+        have : okL w l = true := hin
+        unfold okL at this; rw [hl] at this
+        simp only [Bool.and_eq_true] at this; exact this.2
+      have hg := (h.good.live (liveL_liveC hl)).db
+      obtain ⟨h1, h2⟩ := getNames_spec s e.h hg hv
+      simp only [Option.map_some]
+      rw [← h2]
+      simp only [Option.some.injEq, Prod.mk.injEq]
+      refine ⟨?_, rfl⟩
+      show ({ cifs := _, chs := _, lhs := _, its := _ } : AWorld) = { cifs := _, chs := _, lhs := _, its := _ }
+      congr 1
+      rw [← h1]; exact (absW_setCif w e.cif _).symm
+  | catLoop hh cat =>
+    simp only [specStep, step, liveH_absW]
+    cases hl : w.liveH hh with
+    | none => rfl
+    | some pr =>
+      obtain ⟨e, s⟩ := pr
+      simp only [Option.map_some]
+      have h1 := getCategoryLoop_fst s e.h cat
+      have h2 := getCategoryLoop_spec s e.h cat
+      rw [← h2]
+      simp only [Option.some.injEq, Prod.mk.injEq, and_true]
+      show ({ cifs := _, chs := _, lhs := _, its := _ } : AWorld) = { cifs := _, chs := _, lhs := _, its := _ }
+      congr 1
+      rw [h1]; exact (absW_setCif w e.cif _).symm
+  | itemLoop hh n =>
+    simp only [specStep, step, liveH_absW]
+    cases hl : w.liveH hh with
+    | none => rfl
+    | some pr =>
+      obtain ⟨e, s⟩ := pr
+      simp only [Option.map_some]
+      have h1 := getItemLoop_fst s e.h n
+      have h2 := getItemLoop_spec s e.h n
+      rw [← h2]
+      simp only [Option.some.injEq, Prod.mk.injEq]
+      refine ⟨?_, rfl⟩
+      show ({ cifs := _, chs := _, lhs := _, its := _ } : AWorld) = { cifs := _, chs := _, lhs := _, its := _ }
+      congr 1
+      rw [h1]; exact (absW_setCif w e.cif _).symm
+  | prune hh =>
+    simp only [specStep, step, liveH_absW]
+    cases hl : w.liveH hh with
+    | none => rfl
+    | some pr =>
+      obtain ⟨e, s⟩ := pr
+      have hg := (h.good.live (liveH_liveC hl)).db
+      obtain ⟨h1, h2⟩ := prune_spec s e.h hg
+      simp only [Option.map_some]
+      rw [← h1, ← h2]
+      simp only [Option.some.injEq, Prod.mk.injEq, and_true]
+      show ({ cifs := _, chs := _, lhs := _, its := _ } : AWorld) = { cifs := _, chs := _, lhs := _, its := _ }
+      congr 1
+      exact (absW_setCif w e.cif _).symm
   | _ => cases hc
 
 end CifModel.Store
